@@ -513,7 +513,8 @@ fn parse_token(
                 };
 
                 // a unary suffix node is already complete, whatever follows it can only take it as a left operand
-                let completed_suffix = n.secondary_definition == SecondaryDefinition::UnarySuffix;
+                // (a side effect block still attaches to the expression it follows)
+                let completed_suffix = n.secondary_definition == SecondaryDefinition::UnarySuffix && definition != Definition::SideEffect;
                 let stop = !completed_suffix && (my_priority < their_priority || my_priority == their_priority && right_to_left);
 
                 // need to find node with higher priority and stop before it
